@@ -473,6 +473,11 @@ func TestCheck(t *testing.T) {
 		judgeBurst(r, t, bt)
 		return
 	}
+	var wb wblockT
+	if mon.ReplayCase(&wb) && wb.WBlock {
+		judgeWBlock(r, t, wb)
+		return
+	}
 	var dc dcloseT
 	if mon.ReplayCase(&dc) && dc.DClose {
 		judgeDClose(r, t, dc)
@@ -507,6 +512,11 @@ func TestCheck(t *testing.T) {
 	for i, wf := range wfailGrid() {
 		if r.Mine(i) {
 			judgeWFail(r, t, wf)
+		}
+	}
+	for i, wb := range wblockGrid() {
+		if r.Mine(i) {
+			judgeWBlock(r, t, wb)
 		}
 	}
 	g := grid(r.Quick())
